@@ -340,12 +340,11 @@ theorem emitRst (h : IdxInv k) (l r : SockAddr) (s : Seg) : IdxInv (k.emitRst l 
 
 theorem abortWith (cfg : Cfg) (h : IdxInv k) (fd : Nat) (b : Bool) : IdxInv (Kernel.abortWith cfg k fd b) := by
   unfold Kernel.abortWith
-  dsimp only
   split
   · exact h
   · split
     · exact h
-    · exact h.setSock _ _
+    · split <;> exact h.setSock _ _
 
 theorem abortOrReap (cfg : Cfg) (h : IdxInv k) (fd : Nat) (b : Bool) : IdxInv (Kernel.abortOrReap cfg k fd b) := by
   unfold Kernel.abortOrReap
